@@ -13,6 +13,7 @@ import (
 	"time"
 
 	"github.com/basecamp/kamal-proxy/internal/verif/memnet"
+	"github.com/basecamp/kamal-proxy/internal/verif/vsched"
 )
 
 func init() { checks["C15"] = checkC15 }
@@ -115,11 +116,16 @@ type c15in struct {
 	k     int
 	fault string // close | stall | garbage | none | refused
 	delay time.Duration
+	drain string // "" | pause | stop: that command starts draining the target 100ms after the request was sent (fault after 500ms)
 }
 
 func (c c15in) name() string {
 	s := c15Services[c.svc]
-	return fmt.Sprintf("svc=%d(reqbuf=%v respbuf=%v pages=%s) resp=%s fault=%s@%d delay=%v", c.svc, s.reqBuf, s.respBuf, s.pages, c.resp, c.fault, c.k, c.delay)
+	r := fmt.Sprintf("svc=%d(reqbuf=%v respbuf=%v pages=%s) resp=%s fault=%s@%d delay=%v", c.svc, s.reqBuf, s.respBuf, s.pages, c.resp, c.fault, c.k, c.delay)
+	if c.drain != "" {
+		r += " during-" + c.drain
+	}
+	return r
 }
 
 // inflightResidue peeks at the private in-flight tables of every target.
@@ -160,7 +166,29 @@ func c15Run(c c15in) func(w *World) []Violation {
 			time.Sleep(time.Millisecond)
 		}
 		t0 := w.Now()
-		o := w.Do(spec)
+		var o *ReqObs
+		if c.drain == "" {
+			o = w.Do(spec)
+		} else {
+			// the fault happens while an operator command is draining the target
+			done := make(chan struct{})
+			vsched.GoTagged("client", func() {
+				o = w.Do(spec)
+				close(done)
+			})
+			time.Sleep(100 * time.Millisecond)
+			svc := fmt.Sprintf("fs%d", c.svc)
+			if c.drain == "pause" {
+				w.Pause(svc, vD, vMaxPause)
+			} else {
+				w.Stop(svc, vD, "draining")
+			}
+			<-done
+			w.Resume(svc)
+			if o == nil {
+				return append(vs, Violation{"C15", "request-unfinished", c.name()})
+			}
+		}
 		tgt.RefuseRequests = false
 		el := o.End - t0
 		page := func(status int) {
@@ -308,6 +336,12 @@ func c15Cases(tier string) []ECase {
 		addc(c15in{svc: si, resp: "cl", k: 1 << 30, fault: "none", delay: vTargetTO - 100*time.Millisecond})
 		addc(c15in{svc: si, resp: "cl", k: 1 << 30, fault: "none", delay: vTargetTO + 100*time.Millisecond})
 		addc(c15in{svc: si, resp: "cl", k: 30, fault: "close", delay: 700 * time.Millisecond})
+		for _, d := range []string{"pause", "stop"} {
+			for _, f := range []string{"close", "garbage"} {
+				addc(c15in{svc: si, resp: "cl", k: 0, fault: f, delay: 500 * time.Millisecond, drain: d})
+			}
+			addc(c15in{svc: si, resp: "cl", k: 30, fault: "close", delay: 500 * time.Millisecond, drain: d})
+		}
 	}
 	return cases
 }
@@ -318,7 +352,7 @@ func checkC15(t *testing.T, job *Job, res *Result) {
 		tier = job.Replay.Tier
 	}
 	res.Engine = "F"
-	res.Rule = "fault points: for 4 scripted responses (Content-Length body, 3-chunk body, 204, 100kB body) EVERY byte offset of the header block (and chunk boundaries +-1, strided body offsets; all offsets of the small responses in thorough) x {close, stall forever, garbage} (after the header block: close only), dial refused, first byte just before/after the target timeout, a fault after a delay; x request/response buffering {none, req, resp, both} x error pages {built-in, custom 502/504, custom without them}; each fault followed by a good request; oracle: 502/504 with the right page at the exact virtual time, or a visibly incomplete response (handler abort / short body), never a complete-looking 200; in-flight table empty afterwards"
+	res.Rule = "fault points: for 4 scripted responses (Content-Length body, 3-chunk body, 204, 100kB body) EVERY byte offset of the header block (and chunk boundaries +-1, strided body offsets; all offsets of the small responses in thorough) x {close, stall forever, garbage} (after the header block: close only), dial refused, first byte just before/after the target timeout, a fault after a delay, a fault while pause/stop is draining the target; x request/response buffering {none, req, resp, both} x error pages {built-in, custom 502/504, custom without them}; each fault followed by a good request; oracle: 502/504 with the right page at the exact virtual time, or a visibly incomplete response (handler abort / short body), never a complete-looking 200; in-flight table empty afterwards"
 	res.Bounds = "see rule"
 	runE(t, job, res, &ESpec{Prop: "C15", Setup: c15Setup, Cases: c15Cases(tier), Batch: 150})
 }
